@@ -112,18 +112,19 @@ type Exec struct {
 
 // Sched is one execution's scheduler.
 type Sched struct {
-	threads  []*thread
-	cur      *thread
-	prefix   []int
-	x        *Exec
-	finished chan struct{}
-	aborting bool
-	exited   chan int
-	paranoid bool
-	maxSteps int
-	epoch    int64
-	atEnd    []func()
-	key      func() string
+	threads    []*thread
+	cur        *thread
+	prefix     []int
+	x          *Exec
+	finished   chan struct{}
+	aborting   bool
+	exited     chan int
+	paranoid   bool
+	yieldsOnly bool
+	maxSteps   int
+	epoch      int64
+	atEnd      []func()
+	key        func() string
 }
 
 var epochCounter int64
@@ -146,7 +147,7 @@ func goid() int64 {
 
 // Run executes body as thread 0 under the given choice prefix and returns the record.
 func Run(prefix []int, paranoid bool, body func(s *Sched)) *Exec {
-	s := &Sched{prefix: prefix, x: &Exec{}, finished: make(chan struct{}), exited: make(chan int, 64), paranoid: paranoid, maxSteps: 200000}
+	s := &Sched{prefix: prefix, x: &Exec{}, finished: make(chan struct{}), exited: make(chan int, 64), paranoid: paranoid, maxSteps: 200000, yieldsOnly: YieldsOnly}
 	s.epoch = atomic.AddInt64(&epochCounter, 1)
 	if !active.CompareAndSwap(nil, s) {
 		panic("sched: nested Run")
@@ -384,12 +385,21 @@ func Yield(f *File, line int) {
 	s.point("", f, line)
 }
 
+// YieldsOnly, when set before an execution starts, makes the inserted Yields of the enabled files (and environment
+// choices, and blocking) the only scheduling points: lock and atomic operations of other instrumented code stop being
+// points. Used by scenarios that interleave one small component while everything around it runs atomically: the
+// surrounding code may take its (shim) locks in an order that depends on Go's map iteration, which would otherwise
+// make the number of points vary between an execution and its replay.
+var YieldsOnly bool
+
 // Acquire blocks the running thread until try succeeds; obj identifies the resource.
 func (s *Sched) Acquire(obj interface{}, what string, try func() bool, onBlock func()) {
 	if s.aborting {
 		return
 	}
-	s.point(what, nil, 0)
+	if !s.yieldsOnly {
+		s.point(what, nil, 0)
+	}
 	first := true
 	for !try() {
 		if first && onBlock != nil {
@@ -418,7 +428,11 @@ func (s *Sched) Release(obj interface{}) {
 }
 
 // Op is a scheduling point before an atomic operation.
-func (s *Sched) Op(what string) { s.point(what, nil, 0) }
+func (s *Sched) Op(what string) {
+	if !s.yieldsOnly {
+		s.point(what, nil, 0)
+	}
+}
 
 // Aborting reports whether the execution is being torn down.
 func (s *Sched) Aborting() bool { return s.aborting }
